@@ -69,6 +69,14 @@ def ensure_gomod():
     os.makedirs(os.path.dirname(modfile()), exist_ok=True)
     with open(os.path.join(BUILD, ".modlock"), "w") as lk:
         fcntl.flock(lk, fcntl.LOCK_EX)
+        _write_gomod(REPO, modfile())
+        main = os.path.join(HARNESS, "go.mod")
+        if not os.path.exists(main):       # -modfile needs a module root: harness/go.mod must exist even for private copies
+            _write_gomod("/repo", main)
+
+
+def _write_gomod(REPO, target):
+    if True:
         src = open(os.path.join(REPO, "go.mod")).read()
         out = []
         for line in src.splitlines():
@@ -84,11 +92,11 @@ def ensure_gomod():
         out.append("require %s v2.0.0-00010101000000-000000000000" % MODPATH)
         out.append("replace %s => %s" % (MODPATH, REPO))
         txt = "\n".join(out) + "\n"
-        p = modfile()
+        p = target
         if not os.path.exists(p) or open(p).read() != txt:
             open(p, "w").write(txt)
         s = open(os.path.join(REPO, "go.sum")).read()
-        p = os.path.join(os.path.dirname(modfile()), "go.sum")
+        p = os.path.join(os.path.dirname(target), "go.sum")
         if not os.path.exists(p) or open(p).read() != s:
             open(p, "w").write(s)
 
